@@ -59,6 +59,7 @@ type Tape struct {
 	LogOn bool
 	Log   []Drawn
 
+	lastGood  int
 	bound     uint32
 	announced bool
 	wordsIn   int // words drawn since the last announcement
@@ -213,6 +214,15 @@ func (t *Tape) serve(p []byte) (int, error) {
 // Read implements io.Reader.
 func (t *Tape) Read(p []byte) (int, error) {
 	t.Reads++
+	if (t.Dry || t.faulted) && t.Reads > t.lastGood+10000 {
+		// the code under test keeps reading from a source that has failed:
+		// cut it off instead of spinning for ever
+		t.Aborted = true
+		panic(Abort{})
+	}
+	if !t.Dry && !t.faulted {
+		t.lastGood = t.Reads
+	}
 	t.Requested += len(p)
 	if len(p) != 4 {
 		t.OddSizes++
